@@ -212,6 +212,10 @@ struct EncScenario : Scenario {
                 Buf out1(c.asz(), 0xCD), out2(c.asz(), 0xCD);
                 int okc = c.unmarshal(out1, b, comp, true);
                 int oku = c.unmarshal(out2, b, comp, false);
+                {   // duplicate delivery (the store retries): the verdict on the same bytes must not depend on what was decoded before
+                    Buf out3(c.asz(), 0xCD); int okc2 = c.unmarshal(out3, b, comp, true); env.count("fault:duplicate_delivery");
+                    if (okc2 != okc) env.fail("C09", "O2:repeat-delivery-same-verdict", strf("validating decode of the same %s G%d bytes returned %d the first time and %d the second time (fault %s)", comp ? "compressed" : "uncompressed", g, okc, okc2, ftag.c_str()));
+                }
                 env.logf("DEC g%d c%d %s bytes=%s canonical=%d checked=%d unchecked=%d", g, comp, ftag.c_str(), sha_hex(b.data(), b.size(), 8).c_str(), canonical, okc, oku);
                 env.count(canonical ? "probe:damaged_bytes_still_canonical" : "probe:damaged_bytes_non_canonical");
                 env.count(okc ? "probe:validating_decode_accepted" : "probe:validating_decode_rejected");
